@@ -1082,6 +1082,7 @@ type RaceResult struct {
 	Goroutines int      `json:"goroutines"`
 	Mismatches []string `json:"mismatches"`
 	WallS      float64  `json:"wall_s"`
+	Rounds     int      `json:"rounds_with_cold_caches"`
 }
 
 // RunRace builds a pool of calls from seed, computes every outcome alone,
@@ -1109,34 +1110,58 @@ func RunRace(seed uint64, goroutines int, dur time.Duration) *RaceResult {
 	}
 	res := &RaceResult{Specs: len(specs), Goroutines: goroutines}
 	var mu sync.Mutex
-	var wg sync.WaitGroup
 	var calls atomic.Int64
 	t0 := time.Now()
 	deadline := t0.Add(dur)
-	shared := newSharedFuncs()
-	for g := 0; g < goroutines; g++ {
-		wg.Add(1)
-		go func(g int) {
-			defer wg.Done()
-			h := &histRun{env: env, shared: shared}
-			r := core.Mix(seed, uint64(g))
-			for time.Now().Before(deadline) {
-				r = core.Mix(r, 1)
-				i := int(r % uint64(len(specs)))
-				got := h.exec(i, &specs[i])
-				h.snaps = h.snaps[:0]
-				calls.Add(1)
-				if got != base[i] {
-					mu.Lock()
-					if len(res.Mismatches) < 5 {
-						res.Mismatches = append(res.Mismatches, fmt.Sprintf("spec %d (%s %s): concurrently %v ; alone %v", i, hkNames[specs[i].Kind], specs[i].Desc, got, base[i]))
-					}
-					mu.Unlock()
-				}
-			}
-		}(g)
+	// Rounds: before each round the process-wide caches are emptied (while no
+	// goroutine runs), so that the goroutines of the round race to be the first
+	// user of every type, of the shared Marshalers/Unmarshalers values and of
+	// the pools - lazily built state is where unsynchronised publication hides.
+	roundLen := dur / 8
+	if roundLen > 4*time.Second {
+		roundLen = 4 * time.Second
 	}
-	wg.Wait()
+	for round := 0; time.Now().Before(deadline); round++ {
+		core.ResetWorld(true)
+		shared := newSharedFuncs()
+		roundEnd := time.Now().Add(roundLen)
+		if roundEnd.After(deadline) {
+			roundEnd = deadline
+		}
+		var wg sync.WaitGroup
+		start := make(chan struct{})
+		for g := 0; g < goroutines; g++ {
+			wg.Add(1)
+			go func(g int) {
+				defer wg.Done()
+				h := &histRun{env: env, shared: shared}
+				// in even rounds all goroutines walk the specs in the same order
+				// (first uses of a type coincide), in odd rounds in their own
+				r := core.Mix(seed, uint64(round))
+				if round%2 == 1 {
+					r = core.Mix(r, uint64(g))
+				}
+				<-start
+				for time.Now().Before(roundEnd) {
+					r = core.Mix(r, 1)
+					i := int(r % uint64(len(specs)))
+					got := h.exec(i, &specs[i])
+					h.snaps = h.snaps[:0]
+					calls.Add(1)
+					if got != base[i] {
+						mu.Lock()
+						if len(res.Mismatches) < 5 {
+							res.Mismatches = append(res.Mismatches, fmt.Sprintf("spec %d (%s %s): concurrently %v ; alone %v", i, hkNames[specs[i].Kind], specs[i].Desc, got, base[i]))
+						}
+						mu.Unlock()
+					}
+				}
+			}(g)
+		}
+		close(start)
+		wg.Wait()
+		res.Rounds++
+	}
 	res.Calls = calls.Load()
 	res.WallS = time.Since(t0).Seconds()
 	return res
